@@ -185,9 +185,9 @@ def check(ctx):
         EMPTY = (("call", ("g", "liesel.option.Option"), (c(None),), ()),
                  ("call", ("g", "liesel.option.Option.none"), (), ()))
         none_ret = [rc for rc, rt_, _ in rg.returns if rt_ in EMPTY]
-        is_none = ("call", ("a", post[0], "is_none"), (), ())
+        is_none = ("call", ("a", post[0], "is_some"), (), ())
         ok_n = len(none_ret) == 1 and sorted(none_ret[0], key=str) == sorted(
-            [(n("posterior_only"), True), (is_none, True)], key=str)
+            [(n("posterior_only"), True), (is_none, False)], key=str)
         full = [rt_ for rc, rt_, _ in rg.returns if is_call(rt_, "liesel.option.Option")
                 and rt_[2] != (c(None),) and rt_ not in EMPTY]
         ctx.ob("C19.R2", gel, "the posterior-only log is empty exactly when there are no "
